@@ -86,13 +86,26 @@ def run_tlc(module, cfg, workers=8, timeout=1800, env=None, coverage=False, extr
     if env:
         e.update({k: str(v) for k, v in env.items()})
     t0 = time.time()
+    proc = subprocess.Popen(cmd, stdout=subprocess.PIPE, stderr=subprocess.STDOUT, text=True, env=e, cwd=specdir,
+                            start_new_session=True)
     try:
-        p = subprocess.run(cmd, capture_output=True, text=True, timeout=timeout, env=e, cwd=specdir)
-        out = p.stdout + p.stderr
-        rc = p.returncode
-    except subprocess.TimeoutExpired as ex:
-        out = (ex.stdout or b"").decode(errors="replace") if isinstance(ex.stdout, bytes) else (ex.stdout or "")
+        out, _ = proc.communicate(timeout=timeout)
+        rc = proc.returncode
+    except subprocess.TimeoutExpired:
+        import signal
+        try:
+            os.killpg(proc.pid, signal.SIGKILL)
+        except ProcessLookupError:
+            pass
+        out, _ = proc.communicate()
         rc = -9
+    except BaseException:
+        import signal
+        try:
+            os.killpg(proc.pid, signal.SIGKILL)
+        except ProcessLookupError:
+            pass
+        raise
     finally:
         shutil.rmtree(md, ignore_errors=True)
     r = TLCResult()
@@ -631,7 +644,8 @@ def tlc_printed_values(out, marker):
                     k += 2 if out[k] == "\\" else 1
             k += 1
         try:
-            vals.append(parse_tla(out[j:k])[1])
+            pv = parse_tla(out[j:k])
+            vals.append(pv[1] if len(pv) == 2 else pv[1:])
         except Exception:
             pass
         i = k
